@@ -2,8 +2,8 @@
    Only statements, pins, non-vacuity examples and Print Assumptions.
    Models: Pg/Model.v (every pg function as one atomic step: all sequential histories),
            Pg/Conc.v  (the same functions split into the lock sections of the code, any
-                       number of threads, every interleaving).
-   Proofs: Pg/Proofs.v, Pg/ConcProofs.v. *)
+                       number of threads, every interleaving, notifications included).
+   Proofs: Pg/Proofs.v, Pg/ConcProofs.v, Pg/ConcProofs2.v, Pg/OracleProofs.v. *)
 From Coq Require Import List NArith Bool.
 From RV Require Import Pg.Model Pg.Proofs Pg.Conc Pg.ConcProofs Pg.ConcProofs2 Pg.OracleProofs.
 Import ListNotations.
@@ -197,7 +197,61 @@ Theorem C11_oracle_sound : forall u ops,
   check_C11 u ops (run_views u pg0 ops) = true.
 Proof. exact check_C11_sound. Qed.
 
-(* OPEN_PLACEHOLDER *)
+(* ------------------------------------------------------------------------------------
+   Part 4: notifications in the micro-step model (Pg/Conc.v: tstep_evs, xstep_evs, clog)
+   ------------------------------------------------------------------------------------ *)
+(* (5, at the linearization point) the step of join_scoped that makes the accepted actors
+   members is the step that clones the group's listeners; the Join naming exactly these
+   actors is later sent to exactly these listeners; the world listeners are those of the
+   state in which the thread reads them (JW1, JW2) *)
+Theorem C11_notify_join_point : forall t c k kept acc stopped,
+  let joined := filter (fun a => nmem a acc) kept in
+  let lis := lis_of (c_pg c) k in
+  let c' := snd (tstep t (JCommit k kept acc stopped) c) in
+  fst (tstep t (JCommit k kept acc stopped) c) = JS k joined lis stopped /\
+  (forall a, In a (mem_of (c_pg c') k) <-> In a (mem_of (c_pg c) k) \/ In a joined) /\
+  (forall c2, tstep_evs (JN k joined lis) c2 = notify_list lis true (fst k) (snd k) joined) /\
+  (forall c2, tstep_evs (JW1 k joined) c2 = notify_list (world_of (c_pg c2) (fst k)) true (fst k) (snd k) joined) /\
+  (forall c2, tstep_evs (JW2 k joined) c2 = notify_list (world_of (c_pg c2) WORLD) true (fst k) (snd k) joined).
+Proof. exact join_commit_point. Qed.
+
+(* these are the atomic model's events for that state when all named actors are (still) live *)
+Theorem C11_notify_join_as_atomic : forall g s g0 kept,
+  kept <> [] -> (forall a, In a kept -> p_dead g a = false) ->
+  snd (join g s g0 kept)
+  = notify_list (lis_of g (s, g0)) true s g0 kept ++ notify_list (world_of g s) true s g0 kept
+    ++ notify_list (world_of g WORLD) true s g0 kept.
+Proof. exact join_events_as_atomic. Qed.
+
+Theorem C11_notify_leave_point : forall t c k acts,
+  fst (tstep t (LL k acts []) c) = LN k acts (lis_of (c_pg c) k) /\
+  (forall c2, tstep_evs (LN k acts (lis_of (c_pg c) k)) c2 = notify_list (lis_of (c_pg c) k) false (fst k) (snd k) acts).
+Proof. exact leave_commit_point. Qed.
+
+(* the automatic leave: one batch per group the actor is still a member of when leave_all
+   visits that entry *)
+Theorem C11_notify_exit_point : forall a c k todo evs,
+  free c k = true ->
+  fst (xstep a (XL (k :: todo) evs) c)
+  = XL todo (evs ++ if nmem a (mem_of (c_pg c) k) then [(k, lis_of (c_pg c) k)] else []).
+Proof. exact exit_batch_point. Qed.
+
+(* OPEN — refinement of every schedule of Conc.v to a sequential history of the atomic model.
+   NOT proved, and FALSE for the atomic alphabet of Pg/Model.v as it stands, for two reasons
+   that the examples below exhibit in the micro-step model (the real code behaves the same):
+   (a) the exit is two-phase: between the publication of Stopping and leave_all's visit of a
+       group, registrations naming the actor are already rejected while queries still see it
+       as a member (ex_two_phase_exit): a rejected join that returned BEFORE a query that
+       still sees the member cannot be ordered around a one-shot OExit.  The right sequential
+       alphabet splits OExit into Publish a ; AutoLeave a k ... (one per group);
+   (b) join_scoped re-checks each actor under its own relations lock at a different instant:
+       a call naming two actors is linearizable per (call, actor), not as one insertion
+       (ex_join_per_actor: 7 accepted, then 7 and 8 publish in this order, then 8 rejected —
+       at no single instant was 7 live and 8 stopping).
+   What is proved instead: for every schedule the safety clauses (C11_no_zombie, C11_no_leak,
+   C11_index_agree_conc, C11_forward_recorded), the notification facts at the commit points
+   above, and equality with the atomic model on solo runs (checked per case by solo_agree,
+   events included).  A simulation proof against the split alphabet is future work. *)
 
 (* ---- statement pins ---- *)
 Check (C11_no_zombie_seq : forall ops1 ops2 a,
@@ -275,6 +329,18 @@ Example ex_O2_order :
   = [mkEv 3 false 1 1 [7]; mkEv 3 true 1 1 [7]].
 Proof. vm_compute. reflexivity. Qed.
 
+(* the two phenomena that rule out a one-shot-exit / one-shot-join sequential specification *)
+Example ex_two_phase_exit :
+  let c := crun (cinit [CJoin 1 1 [7]; CJoin 2 1 [7]]) (repeat (LT 0) 12 ++ [LX 7] ++ repeat (LT 1) 12) in
+  c_thr c = [Done; Done] /\ p_dead (c_pg c) 7 = true
+  /\ get_members (c_pg c) 2 1 = []        (* the second join has returned: rejected *)
+  /\ get_members (c_pg c) 1 1 = [7].      (* a later query still sees the member *)
+Proof. vm_compute. auto. Qed.
+Example ex_join_per_actor :
+  let c := crun (cinit [CJoin 1 1 [7; 8]]) (repeat (LT 0) 5 ++ [LX 7] ++ repeat (LX 8) 3 ++ repeat (LT 0) 2) in
+  c_thr c = [JCommit (1, 1) [7; 8] [7] [8]] /\ c_x c 7 = XPub /\ c_x c 8 = XDone.
+Proof. vm_compute. auto. Qed.
+
 Print Assumptions C11_refines_set.
 Print Assumptions C11_refines_set_step.
 Print Assumptions C11_join_idempotent.
@@ -291,3 +357,7 @@ Print Assumptions C11_forward_recorded.
 Print Assumptions C11_index_agree_conc.
 Print Assumptions C11_no_leak.
 Print Assumptions C11_oracle_sound.
+Print Assumptions C11_notify_join_point.
+Print Assumptions C11_notify_join_as_atomic.
+Print Assumptions C11_notify_leave_point.
+Print Assumptions C11_notify_exit_point.
